@@ -74,12 +74,16 @@ IsValidPoint(ls, k) ==
        IF l # "No" /\ StrideOf(l) # k THEN R(ls, "err")
        ELSE SetLayoutIfNoLayout(ls, CASE k = 2 -> "XY" [] k = 3 -> "XYZ" [] OTHER -> "XYZM")
 \* ring closure is tested on X, Y and - only when the layout has Z - the third ordinate
-ClosureDims(l) == IF l \in {"XYZ", "XYZM"} THEN 3 ELSE 2
-Closed(first, last, l) == \A i \in 1..ClosureDims(l) : first[i] = last[i]
+\* (the statement says "closed rings" without naming the dimensions: closure in X and Y is undisputed, whether the Z ordinate
+\* must agree too is a choice - PostGIS compares it, JTS does not.  The state carries the choice (cz); the observation
+\* checker accepts a parser that behaves like EITHER reading, consistently within one parse.)
+ClosureDims(l, cz) == IF cz /\ l \in {"XYZ", "XYZM"} THEN 3 ELSE 2
+Closed(first, last, l, cz) == \A i \in 1..ClosureDims(l, cz) : first[i] = last[i]
 
 \* ---------------------------------------------------------------- parser state
-S0 == [st |-> "run", sem |-> "ok", ctl |-> <<<<"END">>, <<"G">>>>, ls |-> InitLS, npts |-> 0,
-       first |-> <<>>, last |-> <<>>, kids |-> <<>>, log |-> <<>>]
+S0z(cz) == [st |-> "run", sem |-> "ok", ctl |-> <<<<"END">>, <<"G">>>>, ls |-> InitLS, npts |-> 0,
+            first |-> <<>>, last |-> <<>>, kids |-> <<>>, log |-> <<>>, cz |-> cz]
+S0 == S0z(TRUE)                      \* what lex.go does today: Z takes part in the closure test
 
 Rej(s)      == [s EXCEPT !.st = "synrej"]
 Pop1(s)     == [s EXCEPT !.ctl = Front(s.ctl)]
@@ -171,7 +175,7 @@ Step(s, tok) ==
             [] k = ")" ->
                  (IF s.sem = "rej" THEN Pop1(s)
                   ELSE IF top[2] = "RING"
-                  THEN LET ok == s.npts >= 4 /\ Closed(s.first, s.last, Top(s.ls).l) IN
+                  THEN LET ok == s.npts >= 4 /\ Closed(s.first, s.last, Top(s.ls).l, s.cz) IN
                        Pop1(Log(IF ok THEN s ELSE [s EXCEPT !.sem = "rej"], "Ring", "", ok, s.ls))
                   ELSE LET ok == s.npts >= 2 IN
                        Pop1(Log(IF ok THEN s ELSE [s EXCEPT !.sem = "rej"], "LS", "", ok, s.ls)))
